@@ -278,6 +278,15 @@ ODD_ITEMS = [
     ("attr", "Clone, Debug, PartialEq", "struct S<T: ?Sized>(u8, dyn Tr + Send);"),
     ("attr", "Deref, DerefMut", "struct S(dyn Tr + Send);"),
     ("attr", "Deref", "struct S<T>(dyn Tr<T> + Send);"),
+    # the same text with another meaning in the next item (a name that is a parameter here and a concrete type there): nothing may be remembered from one expansion to the next
+    ("attr", "Clone, Debug, PartialEq", "struct P1<U>(Vec<T>, Option<U>, [u8; N]);"),
+    ("attr", "Clone, Debug, PartialEq", "struct P2<T>(Vec<T>, Option<U>, [u8; N]);"),
+    ("attr", "Clone, Debug, PartialEq", "struct P3<const N: usize>(Vec<T>, Option<U>, [u8; N]);"),
+    ("attr", "Clone, Debug, PartialEq", "enum P4<T, U, const N: usize> { A(Vec<T>), B { x: Option<U>, y: [u8; N] } }"),
+    ("attr", "Add, Neg, AddAssign", "struct P5<U>(Wrapping<T>, U);"),
+    ("attr", "Add, Neg, AddAssign", "struct P6<T>(Wrapping<T>, U);"),
+    ("derive", "", "#[derive_ex(Default, Hash, Ord, PartialOrd, Eq, PartialEq)] struct P7<Item>(Vec<Item>, T);"),
+    ("derive", "", "#[derive_ex(Default, Hash, Ord, PartialOrd, Eq, PartialEq)] struct P8<T>(Vec<Item>, T);"),
     ("attr", "DerefMut", "struct S { a: impl A + B }"),
     ("attr", "PartialEq, PartialOrd, Hash", "struct S(u8, #[partial_eq(by = f)] #[partial_ord(by = g)] #[hash(by = h)] dyn Tr + Send);"),
     ("attr", "Ord, PartialOrd, Eq, PartialEq", "struct S(u8, #[ord(by = f)] dyn Tr + Send);"),
@@ -446,7 +455,22 @@ def native_part(tier, rnd, out, extra_reqs=()):
     reqs = [q for q in (list(extra_reqs) + native_corpus(tier, rnd)) if (q[0] + q[1] + q[2]).strip()]
     nproc = 3 if tier == "quick" else 8
     t0 = time.time()
-    runs = [run_expander_raw(reqs) for _ in range(nproc)]
+    # the same inputs again in fresh processes - in the same, in the reverse and in a shuffled order: the expansion of an input may not depend on what the process expanded before
+    orders = [list(range(len(reqs)))]
+    for k in range(1, nproc):
+        o = list(range(len(reqs)))
+        if k % 3 == 1:
+            o.reverse()
+        elif k % 3 == 2:
+            rnd.shuffle(o)
+        orders.append(o)
+    runs = []
+    for o in orders:
+        raw = run_expander_raw([reqs[i] for i in o])
+        back = [None] * len(reqs)
+        for pos, i in enumerate(o):
+            back[i] = raw[pos]
+        runs.append(back)
     valid_in = [json.loads(l).get("parse_ok", False) for l in run_expander_raw([("parse", "", q[2] if q[2].strip() else "struct __Empty;") for q in reqs])]
     stats = {"native_inputs": len(reqs), "native_processes": nproc, "native_panics": 0, "native_malformed": 0, "native_silent_failures": 0, "native_nondeterministic": 0}
     first = [json.loads(l) for l in runs[0]]
@@ -474,10 +498,17 @@ def native_part(tier, rnd, out, extra_reqs=()):
         for i, (a, b) in enumerate(zip(runs[0], runs[k])):
             if a != b:
                 stats["native_nondeterministic"] += 1
-                found.setdefault("nondeterministic", []).append((reqs[i], "two expansions of the same input differ: %s ... vs ... %s" % (_difference(a, b))))
+                found.setdefault("nondeterministic", []).append((reqs[i], "two expansions of the same input differ (process %d expanded the inputs in %s order): %s ... vs ... %s" % (
+                    (k, "the same" if orders[k] == orders[0] else "another") + _difference(a, b))))
+                if orders[k] != orders[0]:
+                    # what each of the two processes had expanded before this input (the replay runs both histories again)
+                    CONTEXT[reqs[i]] = ([reqs[j] for j in orders[0][:orders[0].index(i)]], [reqs[j] for j in orders[k][:orders[k].index(i)]])
                 break
     stats["native_wall_s"] = round(time.time() - t0, 1)
     return reqs, found, stats
+
+
+CONTEXT = {}
 
 
 def _difference(a, b):
@@ -494,7 +525,10 @@ def write_native_replay(name, req, expect):
     if os.path.exists(path):
         shutil.rmtree(path)
     os.makedirs(path)
-    json.dump({"property": PID, "mode": req[0], "attr": req[1], "item": req[2], "expect": expect}, open(os.path.join(path, "case.json"), "w"), indent=1)
+    case = {"property": PID, "mode": req[0], "attr": req[1], "item": req[2], "expect": expect}
+    if expect == "nondeterministic" and req in CONTEXT:
+        case["histories"] = [[list(q) for q in h] for h in CONTEXT[req]]
+    json.dump(case, open(os.path.join(path, "case.json"), "w"), indent=1)
     open(os.path.join(path, "run.sh"), "w").write("""#!/bin/sh
 # Native replay: expands the input of case.json through the real macro (hook library) in fresh processes. exit 0 = the violation reproduces.
 cd "$(dirname "$0")/../../.." && exec python3-vt -m vlib.c16 --replay "replays/%s/%s/case.json"
@@ -507,7 +541,11 @@ def replay_main(path):
     import json
     case = json.load(open(path))
     req = (case["mode"], case["attr"], case["item"])
-    outs = [run_expander_raw([req]) for _ in range(8 if case["expect"] == "nondeterministic" else 1)]
+    if case.get("histories"):
+        # order dependence: the input at the end of each of the two recorded histories, each in a fresh process
+        outs = [run_expander_raw([tuple(q) for q in h] + [req])[-1:] for h in case["histories"]]
+    else:
+        outs = [run_expander_raw([req]) for _ in range(8 if case["expect"] == "nondeterministic" else 1)]
     res = json.loads(outs[0][0])
     if case["expect"] == "panic":
         ok = "panic" in res
